@@ -70,6 +70,41 @@ def oracle(res, g):
         bad.append(("hy-shorter-than-chord", "hy*dy is shorter than the two-chord length through the cell centre by %.3g (relative)" % lo))
     if hi > 0.1:
         bad.append(("hy-longer-than-arc", "hy*dy exceeds the two-chord length through the cell centre by %.3g (relative)" % hi))
+    # arc length between the two cell centres either side of a y-face (including the faces on region joins and the one that closes a
+    # periodic core): hy_ylow*dy is bounded below by the two chords centre - face - centre and exceeds them by at most a few per cent
+    hyl = v["hy_ylow"]
+    lo2, hi2, where2 = 0.0, 0.0, None
+    for chain in C["y_groups"]:
+        first = C["regions"][chain[0]]
+        periodic = first["connections"]["lower"] is not None
+        for xi in range(first["nx"]):
+            cen, fac = [], []      # centres and the faces *below* them, along the chain
+            for rid in chain:
+                sx, sy = meta["region_indices"][rid]
+                x = sx.start + xi
+                for y in range(sy.start, sy.stop):
+                    cen.append((Rc[x, y], Zc[x, y]))
+                    fac.append((Ry[x, y], Zy[x, y], hyl[x, y] * dy[x, y], rid, y))
+            n = len(cen)
+            for k in range(n):
+                if k == 0 and not periodic:
+                    continue          # a target: no cell below
+                pc = cen[k - 1]       # k = 0 on a periodic chain: the last centre
+                fr, fz, arc, rid, y = fac[k]
+                c2 = np.hypot(fr - pc[0], fz - pc[1]) + np.hypot(cen[k][0] - fr, cen[k][1] - fz)
+                if not np.isfinite(arc) or not np.isfinite(c2) or c2 == 0:
+                    continue
+                if c2 / arc - 1.0 > lo2:
+                    lo2, where2 = float(c2 / arc - 1.0), (rid, xi, y)
+                if arc / c2 - 1.0 > hi2:
+                    hi2, where_hi = float(arc / c2 - 1.0), (rid, xi, y)
+    res.extra.setdefault("arc_vs_chord_ylow", {})[name] = {"chord_exceeds_arc_by": lo2, "arc_exceeds_chord_by": hi2}
+    if lo2 > 8.0 / nfine ** 2 + 0.02:
+        bad.append(("hy-ylow-shorter-than-chord", "hy_ylow*dy is shorter than the two chords between the neighbouring cell centres through the face by %.3g (relative) at region %s, x=%d, y=%d"
+                    % ((lo2,) + where2)))
+    if hi2 > 0.15:
+        bad.append(("hy-ylow-longer-than-arc", "hy_ylow*dy exceeds the two chords between the neighbouring cell centres through the face by %.3g (relative) at region %s, x=%d, y=%d"
+                    % ((hi2,) + where_hi)))
     # poloidal_distance along every chain of y-connected regions: strictly increasing, continuous across joins, from 0 at the chain start
     pd_c, pd_y = v["poloidal_distance"], v["poloidal_distance_ylow"]
     for chain in C["y_groups"]:
